@@ -27,13 +27,19 @@
    steps, relative to an abstract exact global flow G and explicit contracts on the local solvers -- see the section EXACTNESS
    ON A COMPLETE MANIFOLD at the end of this file (C09_exact_complete, C09_exact_L1, C09_exact_L2).  Still NOT proved: the
    two-site integrator; the variant with quantum numbers (known to FAIL in some sectors: finding K1); that the floating-point
-   Krylov exponential meets the contracts. *)
+   Krylov exponential meets the contracts.
+   UPDATE 3: contract (A) of the exactness theorem is no longer assumed: it is DERIVED (every L) from "the solver is natural with
+   respect to unitary changes of basis" = similarity invariance of the matrix exponential, exp(t U^-1 H U) = U^-1 exp(tH) U; the
+   tensor-network content (H_eff = V^H Hdense V with V unitary, for the model's environment blocks and MPO.as_matrix) is proved --
+   see the section CONTRACT (A) REDUCED TO A FACT ABOUT THE MATRIX EXPONENTIAL at the end (C09_exact_complete_natural). *)
 From Coq Require Import ZArith QArith Qcanon List Bool Lia.
 From PT Require Import Base.Scalar Base.Field Base.BigSum Base.Mx Model.Tensor Model.Operation Model.Sweeps
   Proofs.SweepsSched Proofs.SweepsFlow Proofs.SweepsCheck Proofs.SweepsExample
   Proofs.OperationEntries Proofs.SweepsCanon Proofs.ReverseDefs Proofs.ReverseGauge Proofs.ReverseQR Proofs.ReverseFwd Proofs.ReversePair
   Proofs.ReverseL1 Proofs.ReverseLocal Proofs.ReverseTop Proofs.ReverseExample
   Proofs.ExactDefs Proofs.ExactLocal Proofs.ExactStep Proofs.ExactRun Proofs.ExactExample.
+From PT Require Import Model.MPSOps Proofs.MPSOpsBase Proofs.MPSOpsLaws
+  Proofs.ExactGlobalDefs Proofs.ExactGlobalTop Proofs.ExactGlobalExample.
 Import ListNotations.
 
 Theorem C09_tdvp1_schedule_palindrome : forall L, rev (sched1 L) = sched1 L.
@@ -335,3 +341,119 @@ Example C09_exact_nontrivial :
   list_eqb (keqb Qcring) (dense 2 2 (rA e_run)) (Gx Qcring (nmul e_steps e_dt) (dense 2 2 (m_A (fst (x_orth e_Psi))))) &&
   keqb Qcring (rn e_run) (xq 2 1) && Nat.eqb (length (rt e_run)) 18 = true.
 Proof. exact e_nontrivial. Qed.
+
+(* =====================================================================================================================
+   CONTRACT (A) REDUCED TO A FACT ABOUT THE MATRIX EXPONENTIAL.
+   Contract (A) [kexp_global] of C09_exact_complete mixes tensor-network algebra (frames, environment blocks) with analysis.
+   The algebra is now PROVED for the model's own functions, over any cring and for every L >= 1 (Proofs/ExactGlobalFrames.v,
+   ExactGlobalEmbed.v, ExactGlobalTop.v), and (A) is DERIVED from the contract
+     solver_natural G m kexp   (Proofs/ExactGlobalDefs.v):  for all well-shaped environment blocks BL, BR and every UNITARY map E
+        (linear, inner-product preserving, with a two-sided inverse E') from the site tensors of shape d x Ds m x Ds (m+1) onto the
+        vectors of length d^L:  if  E (apply_local_hamiltonian BL BR W_m X) = Hdense * (E X)  for all X  (Hdense = the model's
+        MPO.as_matrix, [Hvec]), then  E (kexp p BL BR W_m X t) = G t (E X)  for all X, t.
+   Mathematical content: with kexp(t) = exp(c t H_loc) and G t = exp(c t Hdense) this is exactly the SIMILARITY INVARIANCE of the
+   matrix exponential under unitaries,   exp(t U^-1 H U) = U^-1 exp(t H) U   (the hypothesis says H_loc = U^-1 Hdense U; equivalently
+   "A U = U B  =>  exp(tA) U = U exp(tB)").  No frame, environment block or MPS occurs in it.  It also holds for a Krylov/Lanczos
+   solver with G t = the same iteration run on Hdense (Lanczos uses only the operator, linear combinations and inner products) and
+   for every polynomial in the operator (C09_nilpotent_solver_natural below).
+   Hdense: [Hvec d Hs v] = matvec (opamp_table d Hs) v, and opamp_table d Hs IS what the model's MPO.as_matrix returns
+   (C09_dense_operator_is_as_matrix; Proofs/MPSOpsDense.v, as_matrix_opamp -- property C03). *)
+
+(* (1) the algebraic identity behind (A): at the split site m, between frames A_0..A_{m-1} left-unitary and A_{m+1}.. right-unitary,
+   with EL / ER built by the model's contraction_operator_step_left / _right from [[[1]]], the embedding
+   E Z = dense vector of (A_0, .., A_{m-1}, Z, A_{m+1}, ..) is a unitary map (exists E' with: lengths, additivity, homogeneity,
+   <X|Y> = <E X|E Y>, E o E' = id on vectors of length d^L, E' o E = id on site tensors) and
+   E (apply_local_hamiltonian (EL m) (ER m) W_m X) = Hdense * (E X):  "H_eff = V^H H V with V unitary".
+   Uses C04's projection theorem (Proofs/OperationLocal.v, local_hamiltonian_projection) and E E^H = 1. *)
+Theorem C09_complete_frames_unitary_embedding : forall (R : cring) (Hs : list (osite R)) d Ds DW m,
+  let L := length Hs in
+  (0 < d)%nat -> (forall j, (j < L)%nat -> osite_ok d (DW j) (DW (S j)) (nth j Hs [])) -> (forall j, (0 < DW j)%nat) ->
+  DW 0%nat = 1%nat -> DW L = 1%nat -> Ds 0%nat = 1%nat -> Ds L = 1%nat -> (m < L)%nat ->
+  forall (As : list (site R)) (EL ER : nat -> env R),
+  length As = L -> (forall j, (j < L)%nat -> wsite d (Ds j) (Ds (S j)) (nth j As [])) ->
+  (forall j, (j < m)%nat -> lunitary (nth j As [])) -> (forall j, (m < j < L)%nat -> runitary (nth j As [])) ->
+  EL 0%nat = env_one -> (forall j, (j < m)%nat -> EL (S j) = contraction_operator_step_left (nth j As []) (nth j As []) (nth j Hs []) (EL j)) ->
+  ER (L - 1)%nat = env_one -> (forall j, (m < j < L)%nat -> ER (j - 1)%nat = contraction_operator_step_right (nth j As []) (nth j As []) (nth j Hs []) (ER j)) ->
+  let E := fun Z => dense d L (lset As m Z) in
+  wenv (DW m) (Ds m) (Ds m) (EL m) /\ wenv (DW (S m)) (Ds (S m)) (Ds (S m)) (ER m) /\
+  (exists Einv, unitary_emb Hs d Ds m E Einv) /\
+  (forall X, wsite d (Ds m) (Ds (S m)) X ->
+     E (apply_local_hamiltonian (EL m) (ER m) (nth m Hs []) X) = Hvec d Hs (E X)).
+Proof. exact complete_frames_embedding. Qed.
+Print Assumptions C09_complete_frames_unitary_embedding.
+
+(* Hvec is the product with the matrix returned by the model's MPO.as_matrix *)
+Theorem C09_dense_operator_is_as_matrix : forall (R : cring) d DsW (Hs : list (osite R)) M,
+  ochain_shape d DsW Hs = true -> bdim1 DsW = true -> Hs <> [] -> MPSOps.as_matrix Hs = Some M ->
+  forall v, Hvec d Hs v = matvec M v.
+Proof. exact Hvec_as_matrix. Qed.
+Print Assumptions C09_dense_operator_is_as_matrix.
+
+(* (2) contract (A) follows from the naturality contract *)
+Theorem C09_natural_implies_global : forall (R : cring) (Hs : list (osite R)) d Ds DW m,
+  (0 < d)%nat -> (forall j, (j < length Hs)%nat -> osite_ok d (DW j) (DW (S j)) (nth j Hs [])) -> (forall j, (0 < DW j)%nat) ->
+  DW 0%nat = 1%nat -> DW (length Hs) = 1%nat -> Ds 0%nat = 1%nat -> Ds (length Hs) = 1%nat -> (m < length Hs)%nat ->
+  forall G (kexp : kexp_t R), solver_natural Hs d Ds DW G m kexp -> kexp_global Hs d Ds G m kexp.
+Proof. exact natural_global. Qed.
+Print Assumptions C09_natural_implies_global.
+
+(* the main theorem with (A) replaced by the naturality contract; all other hypotheses as in C09_exact_complete *)
+Theorem C09_exact_complete_natural : forall (R : cring) orth qr (kexp : kexp_t R) (kexp0 : kexp0_t R) (H : mpo R) psi dt hdt n d Ds DW m G A1 qD1 nrm tr,
+  let L := length (o_A H) in
+  tdvp_singlesite orth qr kexp kexp0 H psi dt hdt n = Some (A1, qD1, nrm, tr) ->
+  (0 < d)%nat -> (forall j, (j < L)%nat -> osite_ok d (DW j) (DW (S j)) (nth j (o_A H) [])) -> (forall j, (0 < DW j)%nat) ->
+  DW 0%nat = 1%nat -> DW L = 1%nat -> complete_profile (o_A H) d Ds m -> kadd R hdt hdt = dt ->
+  kexp_flowH (o_A H) d Ds DW kexp -> kexp0_shape (o_A H) Ds DW kexp0 ->
+  intertwine_left (o_A H) d Ds DW kexp kexp0 -> intertwine_right (o_A H) d Ds DW kexp kexp0 ->
+  solver_natural (o_A H) d Ds DW G m kexp -> G_flow (o_A H) d G ->
+  (forall j, (j < L)%nat -> wsite d (Ds j) (Ds (S j)) (nth j (m_A (fst (orth psi))) [])) ->
+  (forall j, (m < j < L)%nat -> runitary (nth j (m_A (fst (orth psi))) [])) ->
+  ex_tr_ok qr (rev tr) ->
+  nrm = snd (orth psi) /\ dense d L A1 = G (nmul n dt) (dense d L (m_A (fst (orth psi)))).
+Proof. exact tdvp1_exact_natural. Qed.
+Print Assumptions C09_exact_complete_natural.
+
+(* L = 1: contracts (F), naturality, (G) only;  L = 2 with bond dimensions 1, d, 1 *)
+Theorem C09_exact_L1_natural : forall (R : cring) orth qr (kexp : kexp_t R) (kexp0 : kexp0_t R) (H : mpo R) psi dt hdt n d Ds DW G A1 qD1 nrm tr,
+  length (o_A H) = 1%nat ->
+  tdvp_singlesite orth qr kexp kexp0 H psi dt hdt n = Some (A1, qD1, nrm, tr) ->
+  (0 < d)%nat -> osite_ok d (DW 0%nat) (DW 1%nat) (nth 0 (o_A H) []) -> (forall j, (0 < DW j)%nat) ->
+  DW 0%nat = 1%nat -> DW 1%nat = 1%nat -> Ds 0%nat = 1%nat -> Ds 1%nat = 1%nat ->
+  kexp_flowH (o_A H) d Ds DW kexp -> solver_natural (o_A H) d Ds DW G 0 kexp -> G_flow (o_A H) d G ->
+  wsite d 1 1 (nth 0 (m_A (fst (orth psi))) []) ->
+  nrm = snd (orth psi) /\ dense d 1 A1 = G (nmul n dt) (dense d 1 (m_A (fst (orth psi)))).
+Proof. exact tdvp1_exact_L1_natural. Qed.
+Print Assumptions C09_exact_L1_natural.
+
+Theorem C09_exact_L2_natural : forall (R : cring) orth qr (kexp : kexp_t R) (kexp0 : kexp0_t R) (H : mpo R) psi dt hdt n d DW G A1 qD1 nrm tr,
+  let Ds := fun j => if Nat.eqb j 1 then d else 1%nat in
+  length (o_A H) = 2%nat ->
+  tdvp_singlesite orth qr kexp kexp0 H psi dt hdt n = Some (A1, qD1, nrm, tr) ->
+  (0 < d)%nat -> (forall j, (j < 2)%nat -> osite_ok d (DW j) (DW (S j)) (nth j (o_A H) [])) -> (forall j, (0 < DW j)%nat) ->
+  DW 0%nat = 1%nat -> DW 2%nat = 1%nat -> kadd R hdt hdt = dt ->
+  kexp_flowH (o_A H) d Ds DW kexp -> kexp0_shape (o_A H) Ds DW kexp0 ->
+  intertwine_left (o_A H) d Ds DW kexp kexp0 -> intertwine_right (o_A H) d Ds DW kexp kexp0 ->
+  solver_natural (o_A H) d Ds DW G 1 kexp -> G_flow (o_A H) d G ->
+  wsite d 1 d (nth 0 (m_A (fst (orth psi))) []) -> wsite d d 1 (nth 1 (m_A (fst (orth psi))) []) ->
+  ex_tr_ok qr (rev tr) ->
+  nrm = snd (orth psi) /\ dense d 2 A1 = G (nmul n dt) (dense d 2 (m_A (fst (orth psi)))).
+Proof. exact tdvp1_exact_L2_natural. Qed.
+Print Assumptions C09_exact_L2_natural.
+
+(* the contract holds for the exact polynomial exponential of the nilpotent example (H = sigma+ x sigma+, Proofs/ExactExample.v):
+   kexp_x(t) X = X + t * apply_local_hamiltonian BL BR W X,  Gx t v = v + t * Hdense v;  for all arguments, over any cring, at both
+   sites (only linearity of E and the length of E X are used -- polynomials are natural w.r.t. every linear intertwiner) *)
+Theorem C09_nilpotent_solver_natural : forall (R : cring) Ds m, (m < 2)%nat ->
+  solver_natural (Hsx R) 2 Ds DWx (Gx R) m (kexp_x R).
+Proof. exact kexp_x_natural. Qed.
+Print Assumptions C09_nilpotent_solver_natural.
+
+(* non-vacuity of C09_exact_complete_natural: the rational run of C09_exact_nonvacuous, now through the naturality contract;
+   the model's as_matrix of its operator succeeds and Hvec is the product with it *)
+Example C09_exact_natural_nonvacuous :
+  rn e_run = snd (x_orth e_Psi) /\
+  dense 2 2 (rA e_run) = Gx Qcring (nmul e_steps e_dt) (dense 2 2 (m_A (fst (x_orth e_Psi)))).
+Proof. exact e_exact_natural. Qed.
+Example C09_exact_natural_as_matrix :
+  exists M, MPSOps.as_matrix (o_A e_H) = Some M /\ forall v, Hvec 2 (o_A e_H) v = matvec M v.
+Proof. exact e_as_matrix. Qed.
